@@ -15,6 +15,7 @@ import re
 import signal
 import sys
 import time
+import warnings
 
 from hplsim import core, gen, seams
 
@@ -53,15 +54,29 @@ def dump(obj):
     return (cls.__name__, repr(obj))
 
 
+# The warnings filter of the process the library runs in: 'default', or 'error' (python -W error,
+# PYTHONWARNINGS=error, pytest's filterwarnings = error). Set per scenario, applied around library
+# calls only (never around harness code).
+_WARN = ['default']
+
+
+def _call(fn, text):
+    if _WARN[0] == 'error':
+        with warnings.catch_warnings():
+            warnings.simplefilter('error')
+            return fn(text)
+    return fn(text)
+
+
 def outcome_of(fn, text, ctx=None):
     """('ok', digest, kind-of-result) | ('err', exception class name, site).
     `ctx` (an injector) is active only around the call itself, not around the digest computation."""
     try:
         if ctx is not None:
             with ctx:
-                r = fn(text)
+                r = _call(fn, text)
         else:
-            r = fn(text)
+            r = _call(fn, text)
     except RecursionError:
         raise
     except Exception as e:
@@ -144,6 +159,7 @@ def model_table(sc):
     prepared template process (never inside a run), so that module-level state a run may have
     poisoned cannot leak into the reference."""
     table = {}
+    _WARN[0] = sc.get('warnings', 'default')
     for call in sc['calls']:
         kind = PARSER_KINDS[call['parser']]
         text = sc['texts'][call['text']]['text']
@@ -165,12 +181,13 @@ def model(kind, text, need_events=False):
     """Outcome of a parser with no past, plus (only when asked: tracing costs 20x) the number of
     traced line events of that call."""
     key = (kind, text)
+    mkey = (kind, text, _WARN[0])
     if _table[0] is not None:
         r = _table[0].get(key)
         if r is not None:
             return r
         raise core.HarnessError('reference outcome missing for %r' % (key,))
-    r = _memo.get(key)
+    r = _memo.get(mkey)
     if r is not None and (r[1] is not None or not need_events):
         return r
     p = pristine(kind)
@@ -206,7 +223,7 @@ def model(kind, text, need_events=False):
         r = pickle.loads(b''.join(chunks))
     if len(_memo) > 20000:
         _memo.clear()
-    _memo[key] = r
+    _memo[mkey] = r
     return r
 
 
@@ -413,7 +430,8 @@ def gen_scenario(seed, cfg):
                              'exc': 'MemoryError' if fk == 'memory' else sim.pick('iexc', ('SimInterrupt', 'KeyboardInterrupt'))}
         calls.append({'parser': pi, 'text': ti, 'fault': fault})
     module_calls = [sim.choose('mc', ntexts) for _ in range(sim.randint('nmc', 0, 2))]
-    return {'seed': seed, 'texts': texts, 'calls': calls, 'module_calls': module_calls, 'digest_gen': sim.digest()}
+    wmode = sim.weighted('warnings', [(7, 'default'), (3, 'error')])
+    return {'seed': seed, 'texts': texts, 'calls': calls, 'module_calls': module_calls, 'warnings': wmode, 'digest_gen': sim.digest()}
 
 
 ###############################################################################
@@ -450,10 +468,12 @@ def guarded(fn, text, ctx=None):
 def execute(sc, stats=None, fresh_parsers=None, trace=None):
     from hpl import parser as hp
     stats = stats if stats is not None else {}
+    _WARN[0] = sc.get('warnings', 'default')
 
     def count(k, n=1):
         stats[k] = stats.get(k, 0) + n
 
+    count('warnings_filter_' + _WARN[0])
     parsers = {}  # long-lived parser objects of this run, constructed on first use
     prev_class = {}
     seen_outcomes = {}
@@ -709,6 +729,11 @@ def minimise(sc, v, budget=120):
     out['calls'] = small
     if v['step'] < len(sc['calls']):
         out['module_calls'] = []
+    if out.get('warnings', 'default') != 'default':
+        plain = dict(out, warnings='default')
+        r0, _o = isolated_execute(plain)
+        if r0 is not None and r0['class'] == cls:
+            out = plain  # the warnings filter plays no part
     r, out2 = isolated_execute(out)
     return (out2 if r is not None else out), (r or v)
 
@@ -716,12 +741,12 @@ def minimise(sc, v, budget=120):
 def make_replay(sc, v):
     return {'property': PROP, 'class': v['class'], 'detail': v['detail'], 'step': v['step'], 'failing_text': v['text'],
             'parser_kind': v['parser_kind'], 'parsers': list(PARSER_KINDS), 'texts': sc['texts'], 'calls': sc['calls'],
-            'module_calls': sc.get('module_calls', []), 'seed': sc.get('seed'), 'pythonhashseed': os.environ.get('PYTHONHASHSEED'),
+            'module_calls': sc.get('module_calls', []), 'warnings_filter': sc.get('warnings', 'default'), 'seed': sc.get('seed'), 'pythonhashseed': os.environ.get('PYTHONHASHSEED'),
             'how_to_replay': '/venv/bin/python /verif/check.py C07 --replay <this file>'}
 
 
 def replay(doc):
-    sc = {'texts': doc['texts'], 'calls': doc['calls'], 'module_calls': doc.get('module_calls', [])}
+    sc = {'texts': doc['texts'], 'calls': doc['calls'], 'module_calls': doc.get('module_calls', []), 'warnings': doc.get('warnings_filter', 'default')}
     prep()
     return isolated_execute(sc)[0]
 
@@ -818,6 +843,7 @@ def main(argv):
         'texts_by_kind': {k[5:]: v for k, v in sorted(stats.items()) if k.startswith('text_')},
         'outcomes': {'ok': stats.get('ok_results', 0), **{k[4:]: v for k, v in sorted(stats.items()) if k.startswith('err_')}},
         'fault_kinds_fired': {k[6:]: v for k, v in sorted(stats.items()) if k.startswith('abort_')},
+        'runs_by_warnings_filter': {k[16:]: v for k, v in sorted(stats.items()) if k.startswith('warnings_filter_')},
         'aborted_calls': stats.get('aborted_calls', 0),
         'distinct_abort_sites': len(abort_sites),
         'abort_sites_sample': sorted(abort_sites)[:25],
